@@ -1,6 +1,8 @@
 import Asts.Driver.Ordinals
 import Asts.Driver.Reconcile
 import Asts.Driver.Sync
+import Asts.Driver.World
+import Asts.Driver.Events
 open Asts.Driver
 
 /-- one input line `<case> => <impl observation>`; one output line `<model observation>\t<monitor verdict>\t<branch tag>` -/
@@ -11,6 +13,9 @@ def dispatch (engine : String) (line : String) : String :=
     | "ordinals" => stepOrdinals cas obs
     | "reconcile" => stepReconcile cas obs
     | "sync" => stepSync cas obs
+    | "world" => stepWorld cas obs
+    | "events" => stepEvents cas obs
+    | "events-pinned" => stepEventsPinned cas obs
     | _ => "unknown-engine\tok\tbad"
   | _ => "bad-line\tok\tbad"
 
